@@ -226,9 +226,10 @@ def check_remainder(rep, c, pf, reads, scen, construct, s=None):
             # a sub-parser consumes an unknown amount: a later remainder cannot be checked by constants (SKESK uses len(s2k))
             if r.via and not r.via.startswith('setter:'):
                 sym_before.append('len(%s)' % (r.via[:-len('.parse')] if r.via.endswith('.parse') else r.via))
-                if r.via.endswith('s2k.parse'):
-                    # axiom: the usage octet inserted by SKESessionKeyV4.parse stands in for the version octet
-                    fixed_before -= base
+        elif r.kind == 'insert' and codec._int(r.width) is not None and not seen_var:
+            # an octet put in front of the buffer for a sub-parser (SKESessionKeyV4: a usage octet for the S2K specifier) is consumed by it
+            # and counted in its length, but is not one of the header.length octets
+            fixed_before += codec._int(r.width)
 
 
 def check_writer_lengths(rep, prog, c, wf):
@@ -994,7 +995,7 @@ def _site_roots(f, s, sel):
                 last = _calltext(ft, e[2], e[3])
                 roots.append(last)
                 continue
-            if sel[0] == 'factory' and ft.startswith('getattr(%s.%s' % (f.params[0], sel[1])):
+            if sel[0] == 'factory' and '%s.%s' % (f.params[0], sel[1]) in ft:
                 roots.append(_calltext(ft, e[2], e[3]))
         elif e[0] == 'assign' and last is not None and e[2] == e[1]:
             roots.append(e[1])            # the constructed object is rendered by the local it was bound to first
@@ -1083,7 +1084,8 @@ def check_update_hlen_defs(rep, prog):
             if s.raised is not None:
                 continue
             calls = [e[1] for e in s.events if e[0] == 'call' and e[1].split('.')[-1] == 'update_hlen']
-            own = [i for i, ft in enumerate(calls) if ft.startswith('super:') or ft in ('Packet.update_hlen', 'VersionedPacket.update_hlen')]
+            bases = set(k.name for k in c.mro()[1:])
+            own = [i for i, ft in enumerate(calls) if ft.startswith('super:') or ft[:-len('.update_hlen')] in bases]
             inner = [i for i, ft in enumerate(calls) if ft.startswith(p0 + '.') and ft.count('.') >= 2]
             ok = len(own) == 1 and bool(inner) and max(inner) < own[0]
             rep.check(ok, 'C08.h', '%s.update_hlen' % c.name, 'calls in order: %s' % calls,
